@@ -212,7 +212,7 @@ class AnsiString:
         elif isinstance(s, AnsiStr):
             from_ansi_string = s._s
         elif isinstance(s, str):
-            self.set_ansi_str(str(s))
+            self.set_ansi_str(s)
         else:
             raise TypeError('Invalid type for s')
 
@@ -260,7 +260,7 @@ class AnsiString:
         Parses an ANSI formatted escape code sequence graphic rendition string into this object.
         Any formatting that isn't internally supported or invalid will be thrown out.
         '''
-        s = str(s) # In case this is an AnsiStr, get the raw string rather than its overrides
+        s = str.__str__(s) # In case this is an AnsiStr (or another str subclass), get the raw string rather than its overrides
         current_settings:Dict[AnsiParamEffect, AnsiSetting] = {}
         parsed_str = ParsedAnsiControlSequenceString(s, False, ansi_graphic_rendition_code_terminator)
         self._s = parsed_str.unformatted_str
